@@ -365,15 +365,22 @@ def opBitAssign (s : State) (i j : Nat) (op : BitOp) (boff blen : Nat) : State Ã
     | none => (s, .bad)
   | _, _ => (s, .bad)
 
-/-- `PrimitiveArray::unary_mut`: `into_builder` succeeds iff the values buffer can be made
-mutable (no nulls here); otherwise `Err(self)` and nothing changes. -/
+/-- `PrimitiveArray::<UInt8Type>::unary_mut` on an array without nulls whose values buffer is
+slot `i`.  `into_builder` succeeds iff `Buffer::into_mutable` does; otherwise `Err(self)` and
+nothing changes.  On success `PrimitiveBuilder::new_from_buffer` turns the `MutableBuffer`
+into a `Vec<u8>`: through `Buffer::into_vec` (same memory, same capacity; the old `Bytes` and
+its reservation are gone) when the layout is that of a `Vec<u8>`, else by copying `len` bytes
+(and freeing the old allocation).  `finish` wraps the vector in a new `Bytes`. -/
 def opUnaryMut (s : State) (i delta : Nat) : State Ã— Out :=
   match s.slots[i]? with
   | some (.buf h) =>
     match s.regions[h.region]? with
     | some reg =>
       if canMutate reg h then
-        (setRegion s h.region { reg with bytes := (reg.bytes.take h.len).map (fun b => (b + delta) % 256) }, .ok)
+        let cap' := match reg.kind with
+          | .standard a => if a = 1 then reg.cap else h.len
+          | .custom _ => h.len
+        ((allocStd (dropSlot s i) i ((reg.bytes.take h.len).map (fun b => (b + delta) % 256)) cap' 1 false).1, .ok)
       else (s, .declined)
     | none => (s, .bad)
   | _ => (s, .bad)
